@@ -30,6 +30,7 @@ RULE = (
     "truncation of each final file from hdrlen upwards is opened and read; every history is also started from a non-initial state (the output names already exist and hold a longer stale product) and run on data whose last blocks are all zero; two writers produce a 24 MiB product in 24 blocks (sizes after every write, three crash states read back). thorough adds the syscall history (strace) replayed into a "
     "byte-array model: model == real file, no write below EOF, no truncate/rename. Non-trivial = crash states with 0 < k < n"
 )
+SCALE_LANE = '24 MiB products written in 24 blocks by 2 (thorough 5) writers: size after every write, state when each write starts, 3 crash states read back'
 ASSUMPTIONS = [
     "fault model = process death between two writes (kernel buffers survive); power loss / fsync ordering is not in the property",
     "the state before the header write (empty file right after open) is not a state 'after a write' and is not judged",
